@@ -13,18 +13,19 @@ EXTENDS HttpGrammar
 CONSTANTS MaxLines,     \* number of templates the sender may append
           LimitN,       \* payload limit (a natural number)
           MaxFds,       \* descriptors that may arrive in total
-          Guided        \* TRUE: the sender follows the successor relation below
+          Guided,       \* TRUE: the sender follows the successor relation below
+          TSet          \* indices of the templates the sender may use
 
 VARIABLES c,        \* the connection record
           stream,   \* bytes sent since the last restart (epoch)
           pos,      \* bytes of stream already received
           outs,     \* outputs since the last restart
           errv,     \* parse error reported by the last read, or NoErr
-          nsent, last, nfds,
+          nsent, last, nfds, epoch,
           arrived,  \* tags received since the last restart, in arrival order
           lastRead  \* ghost: [fds, outs] of the last read (for AttachRule)
 
-vars == <<c, stream, pos, outs, errv, nsent, last, nfds, arrived, lastRead>>
+vars == <<c, stream, pos, outs, errv, nsent, last, nfds, epoch, arrived, lastRead>>
 
 Limit == NatDigits(LimitN)
 NT == Len(Templates)
@@ -32,24 +33,24 @@ Class(t) == TemplateClass[t]
 
 \* Guided sender: mostly near-valid conversations (any template may still start one).
 Succ(l) ==
-    IF ~Guided \/ l = 0 THEN 1..NT
-    ELSE CASE Class(l) = "RL" -> {t \in 1..NT : Class(t) \in {"HD", "BL"}}
-           [] Class(l) = "HD" -> {t \in 1..NT : Class(t) \in {"HD", "BL"}}
-           [] Class(l) = "BL" -> {t \in 1..NT : Class(t) \in {"RL", "BD", "JK"}}
-           [] Class(l) = "BD" -> {t \in 1..NT : Class(t) \in {"RL", "BD"}}
-           [] OTHER -> 1..NT
+    IF ~Guided \/ l = 0 THEN TSet
+    ELSE CASE Class(l) = "RL" -> {t \in TSet : Class(t) \in {"HD", "BL"}}
+           [] Class(l) = "HD" -> {t \in TSet : Class(t) \in {"HD", "BL"}}
+           [] Class(l) = "BL" -> {t \in TSet : Class(t) \in {"RL", "BD", "JK"}}
+           [] Class(l) = "BD" -> {t \in TSet : Class(t) \in {"RL", "BD"}}
+           [] OTHER -> TSet
 
 NoRead == [fds |-> <<>>, outs |-> <<>>, had |-> <<>>]
 
 Init == /\ c = InitConn(Limit)
         /\ stream = <<>> /\ pos = 0 /\ outs = <<>> /\ errv = NoErr
-        /\ nsent = 0 /\ last = 0 /\ nfds = 0 /\ arrived = <<>> /\ lastRead = NoRead
+        /\ nsent = 0 /\ last = 0 /\ nfds = 0 /\ epoch = 0 /\ arrived = <<>> /\ lastRead = NoRead
 
 Send(t) == /\ nsent < MaxLines
            /\ t \in Succ(last)
            /\ stream' = stream \o Templates[t]
            /\ nsent' = nsent + 1 /\ last' = t
-           /\ UNCHANGED <<c, pos, outs, errv, nfds, arrived, lastRead>>
+           /\ UNCHANGED <<c, pos, outs, errv, nfds, epoch, arrived, lastRead>>
 
 \* after every call the harness pops all requests and drains all output
 Drained(cc) == [cc EXCEPT !.parsed = <<>>, !.respQ = <<>>, !.respBuf = <<>>]
@@ -66,28 +67,28 @@ Read(k, fds) ==
     /\ pos' = pos + k
     /\ nfds' = nfds + Len(fds)
     /\ arrived' = arrived \o fds
-    /\ UNCHANGED <<stream, nsent, last>>
+    /\ UNCHANGED <<stream, nsent, last, epoch>>
 
 ReadData == \E k \in 1..BUF : Read(k, <<>>) \/ (nfds < MaxFds /\ Read(k, <<nfds + 1>>))
 
 \* recvmsg fails with EAGAIN / EINTR: nothing may change
 ReadEmpty == /\ errv = NoErr
              /\ c' = TryReadErr(c).c
-             /\ UNCHANGED <<stream, pos, outs, errv, nsent, last, nfds, arrived, lastRead>>
+             /\ UNCHANGED <<stream, pos, outs, errv, nsent, last, nfds, epoch, arrived, lastRead>>
 
 \* recvmsg returns 0 bytes (possibly with descriptors): reported, parser untouched
 ReadEof == /\ errv = NoErr /\ nfds < MaxFds
            /\ c' = TryReadEof(c, <<nfds + 1>>).c
-           /\ nfds' = nfds + 1 /\ arrived' = arrived \o <<nfds + 1>>
-           /\ UNCHANGED <<stream, pos, outs, errv, nsent, last, lastRead>>
+           /\ nfds' = nfds + 1 /\ arrived' = arrived \o <<nfds + 1>> /\ lastRead' = NoRead
+           /\ UNCHANGED <<stream, pos, outs, errv, nsent, last, epoch>>
 
 \* keep using the connection after a parse error: the unread rest is a new epoch
 Restart == /\ errv # NoErr
            /\ stream' = From(stream, pos + 1) /\ pos' = 0 /\ outs' = <<>> /\ errv' = NoErr
-           /\ arrived' = <<>> /\ lastRead' = NoRead
+           /\ arrived' = <<>> /\ lastRead' = NoRead /\ epoch' = IF epoch < 2 THEN epoch + 1 ELSE epoch
            /\ UNCHANGED <<c, nsent, last, nfds>>
 
-Next == (\E t \in 1..NT : Send(t)) \/ ReadData \/ ReadEmpty \/ ReadEof \/ Restart
+Next == (\E t \in TSet : Send(t)) \/ ReadData \/ ReadEmpty \/ ReadEof \/ Restart
 
 Spec == Init /\ [][Next]_vars
 
@@ -132,6 +133,39 @@ AttachRule ==
         /\ reqs[1].r.files = lastRead.had \o lastRead.fds
         /\ \A i \in 2..Len(reqs) : reqs[i].r.files = <<>>
         /\ c.files = <<>>
+
+(***************************************************************************)
+(* Vacuity guard: every interesting region must be reached by the run.     *)
+(* (TLC's -coverage cannot be used: its cost model inlines the operator    *)
+(* call graph of this specification and runs out of memory.)  Each witness *)
+(* prints its name once per worker; ./check fails a run that lacks one.    *)
+(***************************************************************************)
+WitnessNames == <<"body_delivered", "continue", "size_limit", "header_too_long", "reqline_too_long",
+                  "bad_method", "bad_uri", "bad_version", "bad_format", "bad_value", "pipelined",
+                  "delivery_after_error", "cr_lf_split", "partial_body", "carry_after_output", "files_delivered",
+                  "ignored_header", "custom_header">>
+ASSUME \A i \in 1..Len(WitnessNames) : TLCSet(i, FALSE)
+Witness(i, cond) == IF cond /\ ~TLCGet(i) THEN TLCSet(i, TRUE) /\ PrintT(<<"WITNESS", WitnessNames[i]>>) ELSE TRUE
+Reqs == SelectSeq(outs, LAMBDA o : o.k = "req")
+Witnesses ==
+    /\ Witness(1, \E i \in 1..Len(outs) : outs[i].k = "req" /\ outs[i].r.hasBody)
+    /\ Witness(2, \E i \in 1..Len(outs) : outs[i].k = "cont")
+    /\ Witness(3, errv.t = "SizeLimitExceeded")
+    /\ Witness(4, errv.t = "H.SizeLimitExceeded")
+    /\ Witness(5, errv.t = "InvalidRequest" /\ FindCRLF(Consumed, 1, Len(Consumed)) = 0)
+    /\ Witness(6, errv.t = "InvalidHttpMethod")
+    /\ Witness(7, errv.t = "InvalidUri")
+    /\ Witness(8, errv.t = "InvalidHttpVersion")
+    /\ Witness(9, errv.t = "H.InvalidFormat")
+    /\ Witness(10, errv.t = "H.InvalidValue")
+    /\ Witness(11, Len(Reqs) >= 2)
+    /\ Witness(12, epoch >= 1 /\ Len(Reqs) >= 1)
+    /\ Witness(13, c.buf # <<>> /\ c.buf[Len(c.buf)] = CR)
+    /\ Witness(14, c.ph = "BD" /\ c.bodyVec # <<>>)
+    /\ Witness(15, c.buf # <<>> /\ lastRead.outs # <<>>)
+    /\ Witness(16, MaxFds = 0 \/ \E i \in 1..Len(outs) : outs[i].k = "req" /\ outs[i].r.files # <<>>)
+    /\ Witness(17, \E i \in 1..Len(outs) : outs[i].k = "req" /\ outs[i].r.h.chunked)
+    /\ Witness(18, \E i \in 1..Len(outs) : outs[i].k = "req" /\ outs[i].r.h.custom # <<>>)
 
 \* EAGAIN / EINTR change nothing (C01)
 EmptyReadInert == [][ReadEmpty => UNCHANGED c]_vars
